@@ -634,3 +634,89 @@ Proof.
   exists true, 1%Q, [[mklinst true [Some (1 # 1, 2 # 1)]; mklinst false [Some (9 # 1, 9 # 1)]]], 0%nat.
   eexists. eexists. split; [vm_compute; reflexivity|]. simpl. discriminate.
 Qed.
+
+(* ------------------------------------------- round 5: channel / keypoint presence -- *)
+
+Lemma node_labelled_scale_l : forall s j inst, node_labelled j (map (scale_kp s) inst) = node_labelled j inst.
+Proof.
+  intros. unfold node_labelled. rewrite nth_map_kp by reflexivity.
+  destruct (nth j inst None) as [[x y]|]; reflexivity.
+Qed.
+
+Lemma channel_live_scale_l : forall s rows j, channel_live (scale_rows s rows) j = channel_live rows j.
+Proof.
+  intros. unfold channel_live, scale_rows. induction rows as [|r t IH]; simpl; [reflexivity|].
+  rewrite node_labelled_scale_l, IH. reflexivity.
+Qed.
+
+Lemma node_labelled_nan_row_l : forall n j, node_labelled j (nan_row n) = false.
+Proof.
+  intros. unfold node_labelled, nan_row. revert j. induction n as [|n IH]; intros [|j]; simpl; auto.
+Qed.
+
+Lemma padding_not_live_l : forall n m j, channel_live (repeat (nan_row n) m) j = false.
+Proof.
+  intros. unfold channel_live. induction m as [|m IH]; simpl; [reflexivity|].
+  rewrite node_labelled_nan_row_l. exact IH.
+Qed.
+
+Lemma channel_live_app_l : forall a b j, channel_live (a ++ b) j = channel_live a j || channel_live b j.
+Proof. intros. unfold channel_live. apply existsb_app. Qed.
+
+Lemma node_labelled_nonempty_l : forall j inst, node_labelled j inst = true -> nonempty inst = true.
+Proof.
+  intros j inst H. unfold nonempty, all_missing. destruct (forallb is_missing inst) eqn:E; [|reflexivity].
+  rewrite forallb_forall in E. unfold node_labelled in H.
+  destruct (nth_in_or_default j inst None) as [Hin|Hd].
+  - rewrite (E _ Hin) in H. discriminate.
+  - rewrite Hd in H. discriminate.
+Qed.
+
+Lemma channel_live_filter_nonempty_l : forall rows j,
+  channel_live (filter nonempty rows) j = channel_live rows j.
+Proof.
+  intros rows j. unfold channel_live. induction rows as [|a t IH]; simpl; [reflexivity|].
+  destruct (nonempty a) eqn:E; simpl; rewrite IH; [reflexivity|].
+  destruct (node_labelled j a) eqn:N; [apply node_labelled_nonempty_l in N; congruence|reflexivity].
+Qed.
+
+Lemma process_lf_channel_live_l : forall uo maxi fr j,
+  channel_live (fst (process_lf uo maxi fr)) j = channel_live (considered uo fr) j.
+Proof.
+  intros. unfold process_lf; simpl. rewrite <- (channel_live_filter_nonempty_l (considered uo fr)).
+  destruct (Nat.eqb maxi 1); [reflexivity|].
+  rewrite channel_live_app_l, padding_not_live_l. apply orb_false_r.
+Qed.
+
+Lemma channel_live_iff_l : forall rows j,
+  channel_live rows j = true <-> exists inst, In inst rows /\ nth j inst None <> None.
+Proof.
+  intros. unfold channel_live. rewrite existsb_exists. unfold node_labelled.
+  split; intros [inst [Hi Hn]]; exists inst; split; auto;
+    destruct (nth j inst None); simpl in *; congruence.
+Qed.
+
+(* channel j of the multi-instance targets of sample k is live exactly when some considered instance of
+   the sample's frame labels node j: every labelled keypoint is carried, nothing else is *)
+Lemma frame_sample_channel_live_l : forall uo s frames k rows n,
+  frame_sample uo s frames k = Some (rows, n) ->
+  exists f, nth_error (lf_idx_list (ds_frames uo frames)) k = Some f /\
+    forall j, channel_live rows j = true <->
+      exists inst, In inst (considered uo (nth f frames [])) /\ nth j inst None <> None.
+Proof.
+  intros uo s frames k rows n H. unfold frame_sample in H.
+  destruct (nth_error (lf_idx_list (ds_frames uo frames)) k) as [f|] eqn:E; [|discriminate].
+  exists f; split; [reflexivity|]. assert (Hr : rows = scale_rows s (fst (process_lf uo (max_instances frames) (rebind uo (nth f frames [])))))
+    by (cbv zeta in H; congruence).
+  subst rows. intro j.
+  rewrite channel_live_scale_l. rewrite process_lf_channel_live_l, considered_rebind.
+  apply channel_live_iff_l.
+Qed.
+
+Lemma multi_channels_nth_l : forall nodes rows j, (j < nodes)%nat ->
+  nth j (multi_channels nodes rows) false = channel_live rows j.
+Proof.
+  intros. unfold multi_channels.
+  rewrite (nth_indep _ false (channel_live rows 0%nat)) by (rewrite map_length, seq_length; assumption).
+  rewrite map_nth, seq_nth by assumption. reflexivity.
+Qed.
